@@ -1126,7 +1126,7 @@ def specs(ctx, rng):
     add("data", kinds=["one", "empty", "one"], zero_block=True)
     add("data", "light", kinds=["big", "one", "big", "empty"])
     # sweep of the flush position under the upper framer: every plaintext prefix length
-    for k in range(1, ctx.scale(230, 400)):
+    for k in range(1, ctx.scale(190, 400)):
         add("data", "blocks", kinds=["empty", "one", "empty"], send_at=k)
         for target in ("event", "http-hap", "server-hap"):
             add("http", "blocks", target=target, kinds=["nobody", "small", "nobody"], send_at=k)
